@@ -115,3 +115,46 @@ func C14_Nested() {
 	vars := exec.Vars{"k": nd.JSON(nd.Spec{Kinds: nd.KNull | nd.KString | nd.KBool | nd.KArray | nd.KFloat, Depth: 1, Width: 2, StrLen: 1})}
 	checkAgainstRef("C14/nested/"+mode+form, mode+form, arr, vars, "C14/null-element-dropped")
 }
+
+var _ = reg("C14_Expr", C14_Expr)
+
+// C14_Expr: subscripts that are computed (last-relative arithmetic, sums of
+// variables, unary minus, halves that must truncate toward zero), subscripts
+// whose bound is itself a subscripted path over another member (last must
+// denote the innermost array), subscripts after [*] over rows of different
+// lengths, and a subscript inside a filter below a subscript.
+func C14_Expr() {
+	mode := modePrefix()
+	forms := []string{
+		"$.a[last - $i]",
+		"$.a[$i + $j]",
+		"$.a[last - $i to last]",
+		"$.a[$i / 2]",
+		"$.a[-$i]",
+		"$.a[last / 2]",
+		"$.a[$.b[last]]",
+		"$.a[$.b[last] to last]",
+		"$.a[last - $.b[last]]",
+		"$.a[0 to $.b.size()]",
+		"$.a[*][last]",
+		"$.a[*][$i to last]",
+		"$.a[last][last]",
+		"$.a[$i] ? (@[last] == $.a[last][last])",
+		"$.a[last, 0, last - 1]",
+		"$.a[$.a[last][last]]",
+	}
+	form := forms[nd.Choice(len(forms))]
+	n := nd.Choice(4)
+	a := make([]any, n)
+	for k := range a {
+		a[k] = nd.JSON(nd.Spec{Kinds: nd.KNull | nd.KFloat | nd.KArray, Depth: 1, Width: 2})
+	}
+	m := nd.Choice(3)
+	b := make([]any, m)
+	for k := range b {
+		b[k] = nd.JSON(nd.Spec{Kinds: nd.KFloat | nd.KNull})
+	}
+	doc := map[string]any{"a": a, "b": b}
+	vars := exec.Vars{"i": nd.JSON(nd.Spec{Kinds: nd.KFloat | nd.KInt64}), "j": nd.JSON(nd.Spec{Kinds: nd.KFloat | nd.KInt64})}
+	checkAgainstRef("C14/expr/"+mode+form, mode+form, doc, vars, "C14/null-element-dropped")
+}
